@@ -65,8 +65,9 @@ def run(chk):
         if not quick:
             for _ in range(400):
                 k1, k2 = sorted(rnd.sample(range(1, n + 1), 2))
+                e2 = rnd.choice(errnos)
                 jobs.append((scen, [{'at': k1, 'errno': rnd.choice(errnos), 'sticky': False},
-                                    {'at': k2, 'errno': rnd.choice(errnos), 'sticky': rnd.random() < 0.3}], chk.seed))
+                                    {'at': k2, 'errno': e2, 'sticky': rnd.random() < 0.3 and e2 != 'EEXIST'}], chk.seed))
     if quick and len(jobs) > 4200:
         rnd.shuffle(jobs)
         jobs = jobs[:4200]
